@@ -144,6 +144,10 @@ def evaluate(case, monitors=("result", "names"), log_updates=False, compiled=Non
                              "tb": ex.tb})
         return out
     out.status = "ok"
+    if ex.rec.counts.get("intersection_duplicate_operand"):
+        # a tensor may appear once per term, so no legal program intersects a fiber with itself
+        out.problems.append({"kind": "intersection-duplicate-operand",
+                             "times": ex.rec.counts["intersection_duplicate_operand"]})
     if "result" in monitors:
         try:
             out.problems.extend(run.result_check(ex, spec, case.inputs, case.scalars,
